@@ -30,7 +30,7 @@ echo "== demo with patch"; go test -count=1 -vet=off -run 'Seed|seed|Demo|ZZ|Zz'
 rm -f $pkgdir/zz_seed_demo_test.go
 echo "== existing tests of touched packages with patch"
 pkgs=$(git diff --name-only | xargs -n1 dirname | sort -u | sed 's|^|./|')
-go test -count=1 -vet=off -timeout 20m $pkgs 2>&1 | grep -v "^ok" | grep -- "--- FAIL\|^FAIL\|panic" | grep -v "TestNetDialCancelContext\|TestNetDialTimeout\|TestRelayStalledConnection" | head -20 > /tmp/seedfails-$P-$N.txt
+go test -count=1 -vet=off -timeout 20m $pkgs 2>&1 | grep -v "^ok" | grep -- "--- FAIL\|^FAIL\|panic" | grep -v "TestNetDialCancelContext\|TestNetDialTimeout\|TestRelayStalledConnection\|TestRelayRaceCompletionAndTimeout\|TestCancelWithoutSendCancelOnContextCanceled\|TestRetryNetConnect" | head -20 > /tmp/seedfails-$P-$N.txt
 cat /tmp/seedfails-$P-$N.txt
 fails=$(grep -c -- "--- FAIL" /tmp/seedfails-$P-$N.txt)
 cd /; git -C /repo worktree remove --force $WT
